@@ -168,7 +168,8 @@ PENDING_REASON = "check not built yet (design in DESIGN.md section 4); not claim
 LATER = ("The case counts quoted above are those of the first complete build; the seeding rounds 5-12 added members to the explored spaces "
          "(the same values in other representations, re-runs in other process environments, single large or coincidence-laden "
          "instances, histories across objects and files). The current bounds, the rule of enumeration and the exact counts are in "
-         "the evidence file of each run (coverage.rule / coverage.bounds) and in DESIGN.md 9.5.")
+         "the evidence file of each run (coverage.rule / coverage.bounds) and in DESIGN.md 9.5. After round 13, C03 and C05 walk every shard "
+         "of their case lists in both orders within one process (about twice the quoted case counts).")
 
 
 def main():
